@@ -48,9 +48,32 @@ BQ_ONE = [
 ]
 BQ_TWO = [
   bsc(1, 0, 0, (PUSH, PUSH), (BPOP, BPOP)),  # capacity 1 ping-pong: every operation may sleep
-  bsc(1, 1, 0, (PUSH, BPOP), (BPOP, PUSH)),
-  bsc(2, 2, 0, (PUSH, N), (BPOP, TRYPUSH)),
+  bsc(1, 1, 0, (PUSH, N), (BPOP, BPOP)),     # the sleeping push is released by the first pop, the second pop (possibly sleeping: negative size) takes its item
+  bsc(2, 2, 0, (PUSH, N), (BPOP, POP)),
+  bsc(2, 1, 0, (PUSH, PUSH), (BPOP, N)),
 ]
+def _completable(scn):
+    """abstract sanity check of a bounded-queue scenario (operations atomic): no reachable state in which an unfinished thread can never
+    proceed. A scenario that fails it would make a legitimately sleeping caller look like a lost wake-up (two early scenarios did)."""
+    cap = scn['CAP']; thr = [[scn.get('O%s%d' % (t, i), 0) for i in (0, 1)] for t in 'ABC']
+    thr = [[o for o in ops if o] for ops in thr]
+    seen = set(); stack = [((0, 0, 0), scn['PRE_PUSH'] - scn['PRE_POP'])]
+    while stack:
+        st = stack.pop()
+        if st in seen: continue
+        seen.add(st); pcs, size = st; moved = False
+        for t in range(3):
+            if pcs[t] >= len(thr[t]): continue
+            o = thr[t][pcs[t]]; nsz = None
+            if o == PUSH: nsz = size + 1 if size < cap else None
+            elif o == BPOP: nsz = size - 1 if size > 0 else None
+            elif o == TRYPUSH: nsz = size + 1 if size < cap else size
+            elif o == POP: nsz = size - 1 if size > 0 else size
+            if nsz is None: continue
+            moved = True; npc = list(pcs); npc[t] += 1; stack.append((tuple(npc), nsz))
+        if not moved and any(pcs[t] < len(thr[t]) for t in range(3)): return False
+    return True
+for _s in BQ_ONE + BQ_TWO: assert _completable(_s), 'bounded-queue scenario can block legitimately: %r' % _s
 DESC = ('2-3 threads x <=2 operations (push / try_pop) after a sequential pre-state; complete linearizability check of the invocation/response '
         'history against a FIFO queue, final drain, lane invariants, page accounting, cbmc memory safety (use after free of pages), lost hand-off (blocked-state oracle)')
 IMMB = [r'S_class_tbb__detail__d2__concurrent_bounded_queue\*\)v_\d+\)\)\.f[34]$']   # my_queue_representation, my_monitors
